@@ -300,13 +300,20 @@ func TestC14(t *testing.T) {
 				}
 			}
 			rec(nil)
+			conditional := 0
 			for _, seq := range seqs {
 				n++
 				id := fmt.Sprintf("o%d", n)
 				rl := rconfig.Rule{ID: id, Matcher: rconfig.Matcher{Routes: []rconfig.Route{{Path: "/" + id}}}, Backend: &rconfig.Backend{Host: "127.0.0.1:1"}}
 				ordered, hasA := true, false
 				for i, k := range seq {
-					rl.Execute = append(rl.Execute, config.MechanismConfig{k: fmt.Sprintf("probe:%s%d", id, i)})
+					step := config.MechanismConfig{k: fmt.Sprintf("probe:%s%d", id, i)}
+					// every second ordering with conditional steps: a condition changes when a step runs, not where it may stand
+					if k != "authenticator" && (n%2 == 1 || (n%4 == 2 && i == len(seq)-1)) {
+						step["if"] = "Request.Method != 'BREW'"
+						conditional++
+					}
+					rl.Execute = append(rl.Execute, step)
 					if i > 0 && rank[seq[i-1]] > rank[k] {
 						ordered = false
 					}
@@ -332,6 +339,7 @@ func TestC14(t *testing.T) {
 					r.Violation("wellformed-rule-rejected", fmt.Sprintf("execute order %v was rejected: %v", seq, err), cs)
 				}
 			}
+			r.Count("orderings_with_conditional_steps", conditional)
 			// ---- unknown ids, bad overrides, unsupported keys ---------------------------------------
 			bad := []struct {
 				name string
